@@ -51,6 +51,10 @@ class Ctx:
         self.lib = self.crates["lib"]
         self.bin = self.crates["bin"]
         self.notes = []
+        for c in self.crates.values():
+            for line in c.data.get("prep_log", []):
+                if line not in self.notes:
+                    self.notes.append("prep: " + line)
         self.analysed = {}
 
     def read(self, rel):
